@@ -274,22 +274,24 @@ def main(argv):
     ctx.replay = None
     if '--replay' in argv:
         ctx.replay = json.load(open(argv[argv.index('--replay') + 1]))
-    gen_and_build(plugin, ctx)
-    extra = {}
-    try:
-        if ctx.replay is not None and hasattr(plugin, 'replay'):
-            plugin.replay(ctx, ctx.replay)
-        else:
-            plugin.run(ctx)
-    except Exception:
-        ctx.prove_log += '\nCORR stage crashed:\n' + traceback.format_exc()
-        ctx.mismatch('harness-crash', traceback.format_exc()[-1500:], None, 'harness')
-    if tier == 'thorough' and ctx.replay is None:
-        extra = thorough_rebuild(plugin, ctx)
-        if not extra.get('clean_build_ok') or extra.get('coqchk_ok') is False:
-            ctx.prove_ok = False
-            ctx.prove_log += '\nthorough clean build / coqchk failed: ' + json.dumps(extra)[-2000:]
-    return report(plugin, ctx, extra)
+    # two runs of one property share its generated facts, evidence and replay files: one at a time
+    with core.Lock('prop_' + pid):
+        gen_and_build(plugin, ctx)
+        extra = {}
+        try:
+            if ctx.replay is not None and hasattr(plugin, 'replay'):
+                plugin.replay(ctx, ctx.replay)
+            else:
+                plugin.run(ctx)
+        except Exception:
+            ctx.prove_log += '\nCORR stage crashed:\n' + traceback.format_exc()
+            ctx.mismatch('harness-crash', traceback.format_exc()[-1500:], None, 'harness')
+        if tier == 'thorough' and ctx.replay is None:
+            extra = thorough_rebuild(plugin, ctx)
+            if not extra.get('clean_build_ok') or extra.get('coqchk_ok') is False:
+                ctx.prove_ok = False
+                ctx.prove_log += '\nthorough clean build / coqchk failed: ' + json.dumps(extra)[-2000:]
+        return report(plugin, ctx, extra)
 
 
 if __name__ == '__main__':
